@@ -1481,9 +1481,32 @@ impl World {
                 let n = b.len();
                 match kind {
                     0 => {
-                        // flip one bit in the last 32+64 bytes (signature or last secret): both are MAC'd
-                        let pos = n - 1 - (bit / 8) % 96.min(n);
-                        b[pos] ^= 1 << (bit % 8);
+                        // flip one bit of something the signature covers: the signature itself, a
+                        // secret scalar or an id marker (the tracing points `ps` are not part of what
+                        // C08/C09 call the key's identifier, rights and secrets, and are not judged)
+                        let Ok(mut w) = WUsk::parse(&b) else { return };
+                        let _ = n;
+                        match bit % 3 {
+                            0 => {
+                                if let Some(sig) = w.sig.as_mut() {
+                                    sig[(bit / 8) % 32] ^= 1 << (bit % 8);
+                                }
+                            }
+                            1 => {
+                                let c = (bit / 3) % w.chains.len().max(1);
+                                if let Some(ch) = w.chains.get_mut(c) {
+                                    let k = (bit / 7) % ch.1.len().max(1);
+                                    ch.1[k].sk[(bit / 8) % 31] ^= 1 << (bit % 8);
+                                }
+                            }
+                            _ => {
+                                let m = (bit / 5) % w.id.len().max(1);
+                                if let Some(mk) = w.id.get_mut(m) {
+                                    mk[(bit / 8) % 31] ^= 1 << (bit % 8);
+                                }
+                            }
+                        }
+                        b = w.write();
                     }
                     _ => {
                         let Ok(mut w) = WUsk::parse(&b) else { return };
